@@ -1,3 +1,190 @@
-import CuriesVerif.Spec.Answer
+import CuriesVerif.Lemmas.Refine
 
-theorem C01_placeholder : True := trivial
+/-!
+# C01 — URI compression always picks the longest registered URI prefix
+
+Statements are about the *model* (`Conv.parseUri`, `Conv.compress`, `Conv.isUri`, which look the
+URI up in the trie index) for every well-formed converter `c` — in particular every converter
+produced by the strict constructor (`wf_of_init`) — every delimiter, and every string `u`.
+-/
+
+open Spec
+
+/-- `k` (owned by `r`) is a longest registered URI prefix of `u` -/
+def IsLongest (recs : List Record) (u k : Str) (r : Record) : Prop :=
+  r ∈ recs ∧ k ∈ r.allU ∧ k <+: u ∧ ∀ r' ∈ recs, ∀ k' ∈ r'.allU, k' <+: u → k'.length ≤ k.length
+
+theorem prefix_eq_of_length_eq {a b u : Str} (ha : a <+: u) (hb : b <+: u) (hl : a.length = b.length) :
+    a = b := by
+  rw [List.prefix_iff_eq_take] at ha hb
+  rw [ha, hb, hl]
+
+theorem isLongest_of_longest {recs : List Record} {u k : Str} {r : Record}
+    (h : longest recs u = some (k, r)) : IsLongest recs u k r := by
+  have ⟨hmem, hmax⟩ := longest_some h
+  have ⟨hr, hk, hp⟩ := (mem_matchesU _ _ _ _).mp hmem
+  exact ⟨hr, hk, hp, fun r' hr' k' hk' hp' => hmax (k', r') ((mem_matchesU _ _ _ _).mpr ⟨hr', hk', hp'⟩)⟩
+
+/-- under one-owner uniqueness the longest match — string *and* owner — is unique -/
+theorem isLongest_unique {recs : List Record} (hu : Unique recs) {u k k' : Str} {r r' : Record}
+    (h : IsLongest recs u k r) (h' : IsLongest recs u k' r') : k = k' ∧ r = r' := by
+  obtain ⟨hr, hk, hp, hmax⟩ := h
+  obtain ⟨hr', hk', hp', hmax'⟩ := h'
+  have hl : k.length = k'.length := Nat.le_antisymm (hmax' r hr k hk hp) (hmax r' hr' k' hk' hp')
+  have hkk : k = k' := prefix_eq_of_length_eq hp hp' hl
+  subst hkk
+  have h1 := ownerU_of_mem hu hr hk
+  have h2 := ownerU_of_mem hu hr' hk'
+  rw [h1] at h2
+  exact ⟨rfl, by simpa using h2⟩
+
+theorem longest_iff {recs : List Record} (hu : Unique recs) (u k : Str) (r : Record) :
+    longest recs u = some (k, r) ↔ IsLongest recs u k r := by
+  constructor
+  · exact isLongest_of_longest
+  · intro h
+    cases hl : longest recs u with
+    | none =>
+      have := (longest_none_iff _ _).mp hl
+      have hm : (k, r) ∈ matchesU recs u := (mem_matchesU _ _ _ _).mpr ⟨h.1, h.2.1, h.2.2.1⟩
+      rw [this] at hm; cases hm
+    | some kr =>
+      obtain ⟨k', r'⟩ := kr
+      have ⟨e1, e2⟩ := isLongest_unique hu (isLongest_of_longest hl) h
+      rw [e1, e2]
+
+/-- **C01 (failure side).** `parse_uri` finds nothing exactly when no registered URI prefix
+(canonical or synonym, of any record) is a prefix of `u`. -/
+theorem C01_parse_none {c : Conv} (h : WF c) (u : Str) :
+    c.parseUri u false = .ok none ↔ ∀ r ∈ c.records, ∀ k ∈ r.allU, ¬ k <+: u := by
+  rw [parseUri_eq h]
+  unfold Spec.parseUri
+  cases hl : longest c.records u with
+  | none =>
+    have hm := (longest_none_iff _ _).mp hl
+    simp only [Option.map_none, Bool.false_eq_true, if_false, true_iff]
+    intro r hr k hk hp
+    have : (k, r) ∈ matchesU c.records u := (mem_matchesU _ _ _ _).mpr ⟨hr, hk, hp⟩
+    rw [hm] at this; cases this
+  | some kr =>
+    have hi := isLongest_of_longest hl
+    simp only [Option.map_some]
+    constructor
+    · intro hc; cases hc
+    · intro hc; exact absurd hi.2.2.1 (hc kr.2 hi.1 kr.1 hi.2.1)
+
+/-- **C01 (success side).** If `parse_uri` answers `(p, i)` then `p` is the canonical CURIE prefix
+of the record owning a longest registered URI prefix `k` of `u`, and `i` is the rest of `u`
+after `k`. -/
+theorem C01_parse_some {c : Conv} (h : WF c) (u p i : Str) (s : Bool)
+    (hp : c.parseUri u s = .ok (some (p, i))) :
+    ∃ k r, IsLongest c.records u k r ∧ p = r.pfx ∧ k ++ i = u := by
+  rw [parseUri_eq h] at hp
+  unfold Spec.parseUri at hp
+  cases hl : longest c.records u with
+  | none => rw [hl] at hp; cases s <;> simp at hp
+  | some kr =>
+    rw [hl] at hp
+    simp only [Option.map_some, Except.ok.injEq, Option.some.injEq, Prod.mk.injEq] at hp
+    have hi := isLongest_of_longest hl
+    refine ⟨kr.1, kr.2, hi, hp.1.symm, ?_⟩
+    rw [← hp.2]
+    obtain ⟨t, ht⟩ := hi.2.2.1
+    rw [← ht]; simp
+
+/-- **C01 (completeness).** Whenever some registered URI prefix `k` owned by `r` is a longest
+prefix of `u`, `parse_uri` answers `(r.prefix, u[len(k):])` — in every mode. -/
+theorem C01_parse_longest {c : Conv} (h : WF c) (u k : Str) (r : Record) (s : Bool)
+    (hl : IsLongest c.records u k r) : c.parseUri u s = .ok (some (r.pfx, u.drop k.length)) := by
+  rw [parseUri_eq h]
+  unfold Spec.parseUri
+  rw [(longest_iff h.unique u k r).mpr hl]
+  rfl
+
+/-- **C01.** `compress` is `parse_uri` joined by the converter's delimiter. -/
+theorem C01_compress {c : Conv} (h : WF c) (u : Str) :
+    c.compress u false false =
+      match c.parseUri u false with
+      | .ok (some (p, i)) => .ok (some (p ++ c.delim ++ i))
+      | _ => .ok none := by
+  rw [compress_eq h, parseUri_eq h]
+  unfold Spec.compress
+  cases Spec.parseUri c.records u with
+  | none => rfl
+  | some r => rfl
+
+/-- **C01.** `is_uri(u)` iff `compress(u)` is not `None` iff `parse_uri` finds a reference iff some
+registered URI prefix is a prefix of `u`. -/
+theorem C01_isUri {c : Conv} (h : WF c) (u : Str) :
+    c.isUri u = true ↔ ∃ r ∈ c.records, ∃ k ∈ r.allU, k <+: u := by
+  rw [isUri_eq h]
+  unfold Spec.parseUri
+  cases hl : longest c.records u with
+  | none =>
+    have hm := (longest_none_iff _ _).mp hl
+    simp only [Option.map_none, Option.isSome_none, Bool.false_eq_true, false_iff]
+    rintro ⟨r, hr, k, hk, hp⟩
+    have : (k, r) ∈ matchesU c.records u := (mem_matchesU _ _ _ _).mpr ⟨hr, hk, hp⟩
+    rw [hm] at this; cases this
+  | some kr =>
+    have hi := isLongest_of_longest hl
+    simp only [Option.map_some, Option.isSome_some, true_iff]
+    exact ⟨kr.2, hi.1, kr.1, hi.2.1, hi.2.2.1⟩
+
+theorem IsLongest.perm {l₁ l₂ : List Record} (p : l₁.Perm l₂) {u k : Str} {r : Record}
+    (h : IsLongest l₁ u k r) : IsLongest l₂ u k r :=
+  ⟨p.mem_iff.mp h.1, h.2.1, h.2.2.1, fun r' hr' => h.2.2.2 r' (p.mem_iff.mpr hr')⟩
+
+/-- **C01 (the answer is a function of the *set* of records).** -/
+theorem C01_unique_answer {l₁ l₂ : List Record} (hu : Unique l₁) (p : l₁.Perm l₂) (u : Str) :
+    Spec.parseUri l₁ u = Spec.parseUri l₂ u := by
+  have hu2 : Unique l₂ := (Unique.perm p).mp hu
+  unfold Spec.parseUri
+  cases h1 : longest l₁ u with
+  | none =>
+    have hm := (longest_none_iff _ _).mp h1
+    have : longest l₂ u = none := by
+      rw [longest_none_iff]
+      cases hm2 : matchesU l₂ u with
+      | nil => rfl
+      | cons x xs =>
+        have hx : (x.1, x.2) ∈ matchesU l₂ u := by rw [hm2]; simp
+        have ⟨a, b, cc⟩ := (mem_matchesU _ _ _ _).mp hx
+        have : (x.1, x.2) ∈ matchesU l₁ u := (mem_matchesU _ _ _ _).mpr ⟨p.mem_iff.mpr a, b, cc⟩
+        rw [hm] at this; cases this
+    rw [this]
+  | some kr =>
+    have := (longest_iff hu2 u kr.1 kr.2).mpr ((isLongest_of_longest h1).perm p)
+    rw [this]
+
+/-- **C01 (order independence).** Two strict converters built from the same records supplied in
+different orders answer `parse_uri`, `compress` and `is_uri` identically, in every mode. -/
+theorem C01_perm {recs recs' : List Record} {d : Str} {c c' : Conv}
+    (hok : ∀ r ∈ recs, RecOK r) (p : recs.Perm recs')
+    (hc : Conv.init? recs d true = .ok c) (hc' : Conv.init? recs' d true = .ok c') (u : Str) (s pt : Bool) :
+    c.parseUri u s = c'.parseUri u s ∧ c.compress u s pt = c'.compress u s pt ∧ c.isUri u = c'.isUri u := by
+  have hw := wf_of_init hok hc
+  have hw' := wf_of_init (fun r hr => hok r (p.mem_iff.mpr hr)) hc'
+  have ⟨e1, d1⟩ := init?_records hc
+  have ⟨e2, d2⟩ := init?_records hc'
+  have pp : c.records.Perm c'.records := by
+    rw [e1, e2]
+    exact ((sortRecords_perm recs).trans p).trans (sortRecords_perm recs').symm
+  have key := C01_unique_answer hw.unique pp u
+  refine ⟨?_, ?_, ?_⟩
+  · rw [parseUri_eq hw, parseUri_eq hw', key]
+  · rw [compress_eq hw, compress_eq hw']
+    unfold Spec.compress
+    rw [key, d1, d2]
+  · rw [isUri_eq hw, isUri_eq hw', key]
+
+/-- Non-vacuity: a strict converter with nested URI prefixes (`h/` ⊂ `h/G`), a synonym of one
+record nested inside another record's prefix (`h` ⊂ `h/`), and the empty URI prefix. -/
+example :
+    (match Conv.init? [⟨[71,79], [104,47], [], [], none⟩, ⟨[79], [104,47,71], [], [[104]], none⟩,
+        ⟨[68], [], [], [], none⟩] [58] true with
+     | .ok c => [c.run ⟨"parse_uri", [[104,47,71,49]], false, false⟩, c.run ⟨"parse_uri", [[104,47,49]], false, false⟩,
+                 c.run ⟨"parse_uri", [[104,49]], false, false⟩, c.run ⟨"compress", [[120]], false, false⟩]
+     | .error _ => [])
+    = [.pair [79] [49], .pair [71,79] [49], .pair [79] [49], .str [68,58,120]] := by
+  decide
